@@ -61,22 +61,22 @@ def categories(p, I, extra, dialect=None):
 
 def check(run):
     p = run.prog
-    loop(run, p)
+    run.attempt(loop, run, p)
     I = interp(p)
     flags = p.const('tdda.rexpy.rexpy', 'RE_FLAGS')
-    klass(run, p, I, flags)
-    dialect(run, p, I, flags)
-    esc(run, p)
-    bracket(run, p, I, flags, 'C03')
-    widen(run, p, I)
-    engine(run, p)
-    catsync(run, p)
-    evidence(run, p)
-    discard(run, p)
-    wspad(run, p)
+    run.attempt(klass, run, p, I, flags)
+    run.attempt(dialect, run, p, I, flags)
+    run.attempt(esc, run, p)
+    run.attempt(bracket, run, p, I, flags, 'C03')
+    run.attempt(widen, run, p, I)
+    run.attempt(engine, run, p)
+    run.attempt(catsync, run, p)
+    run.attempt(evidence, run, p)
+    run.attempt(discard, run, p)
+    run.attempt(wspad, run, p)
     from .. import ief, triage
-    ief.run_ief(run, 'C03', [p.fn(RX + 'extract'), p.fn(RX + 'pdextract'), p.method('Extractor', '__init__')], triage=triage.IEF, selfattr=True)
-    run.floor('C03-IEF', run.units['ief_functions_checked'], 60)
+    run.attempt(ief.run_ief, run, 'C03', [p.fn(RX + 'extract'), p.fn(RX + 'pdextract'), p.method('Extractor', '__init__')], triage=triage.IEF, selfattr=True)
+    run.floor('C03-IEF', run.units.get('ief_functions_checked', 0), 60)
     run.trust('the interpreter\'s re module defines which characters a class such as \\d or [^\\W_] matches')
 
 
